@@ -889,6 +889,9 @@ class Evaluator:
         decl = hir.callee_decl(e)
         for name in (cal, decl):
             if name in self.atoms:
+                if name != cal and getattr(self, "prefer_local_impls", False) and cal.lstrip("<&").split("::")[0] in self.inline_crates \
+                        and cal in self.facts.crate(cal.lstrip("<&").split("::")[0])["_bodies"]:
+                    continue          # the trait method resolves to an impl of an inlinable crate: that impl is evaluated instead
                 a = self.atoms[name]
                 if callable(a):
                     return a([self.ev(x, env) for x in e["args"]])
